@@ -175,6 +175,8 @@ class World(BaseWorld):
                     for k in nz:
                         if v in k:
                             edits.append([enc_key(k), -terms[k]])
+            if edits and rng.random() < c.get("p_refresh", 0.3):
+                edits.append(["R", 0])       # the documented remedy for cancelled variables: model.refresh(), then anneal
         md = {"type": mtype, "terms": [[enc_key(k), v] for k, v in items], "edits": edits}
         if mtype not in MATRIX and mtype != "dict" and rng.random() < c.get("p_set_mapping", 0.15):
             # the user pins the label -> index mapping himself (documented: set_mapping / set_reverse_mapping), in any dict order
@@ -197,6 +199,9 @@ class World(BaseWorld):
             p.add_term(key, v)
             reported |= set(key)
         for k, d in m.get("edits", []):
+            if k == "R":
+                reported = set(p.variables())      # refresh(): the bookkeeping is rebuilt from the surviving terms
+                continue
             key = dec_key(k)
             p.add_term(key, d)
             reported |= set(key)
@@ -243,8 +248,13 @@ class World(BaseWorld):
         poly, reported = self.model_info(fn, m)
         labels = sorted(reported, key=sort_key)
         new = []
-        how = rng.choice(["zero_term", "grow_then_cancel", "change", "zero_term"])
+        how = rng.choice(["zero_term", "grow_then_cancel", "change", "zero_term", "refresh"])
         nz = [k for k in poly.t if k]
+        if how == "refresh":
+            if not any(k != "R" for k, _ in m.get("edits", [])) or m["edits"][-1][0] == "R":
+                how = "zero_term"
+            else:
+                new.append(["R", 0])
         if how == "zero_term" and nz:
             k = tuple(sorted(rng.choice(sorted(nz, key=lambda x: sorted(map(repr, x)))), key=sort_key))
             new.append([enc_key(k), -float(poly.t[frozenset(k)]) if poly.t[frozenset(k)].denominator != 1 else -int(poly.t[frozenset(k)])])
@@ -252,7 +262,7 @@ class World(BaseWorld):
             big = max(labels) + rng.randint(1, 3)
             new.append([[big], 1])
             new.append([[big], -1])
-        elif labels:
+        elif labels and not new:
             new.append([enc_key((rng.choice(labels),)), rng.choice([1, -1, 2])])
         if not new:
             return None
@@ -417,16 +427,22 @@ class World(BaseWorld):
         for k, v in m["terms"]:
             d[dec_key(k)] = v
         obj = T(d) if m["type"] != "dict" else d
-        for k, delta in m.get("edits", []):
-            obj[dec_key(k)] += delta
         sm = m.get("set_mapping")
         if sm:
+            # the user pins the mapping on the freshly built model; later edits (and refresh(), which rebuilds the
+            # bookkeeping) happen to that object, exactly as they do for a model kept alive between calls
             pairs = [(dec_label(l), i) for l, i in sm["pairs"]]
             if sm["how"] == "set_mapping":
                 obj.set_mapping(dict(pairs))
             else:
                 obj.set_reverse_mapping({i: l for l, i in pairs})
             self.fault("user_defined_mapping")
+        for k, delta in m.get("edits", []):
+            if k == "R":
+                obj.refresh()
+                self.fault("model_refreshed_after_cancellation")
+                continue
+            obj[dec_key(k)] += delta
         return obj
 
     def snapshot(self, obj):
@@ -453,6 +469,10 @@ class World(BaseWorld):
         if md.get("live") and live is not None and live[1] == (op["fn"], md["type"], json.dumps(md["terms"], sort_keys=True)):
             model = live[0]
             for k, delta in md.get("new_edits", []):
+                if k == "R":
+                    model.refresh()
+                    self.fault("model_refreshed_after_cancellation")
+                    continue
                 model[dec_key(k)] += delta
             self.fault("live_model_edited_between_calls")
         else:
@@ -988,7 +1008,16 @@ def shrink_op(op):
     if m["terms"]:
         for i in range(len(m["terms"])):
             t = m["terms"][:i] + m["terms"][i + 1:]
-            out.append(dict(op, model=dict(m, terms=t, edits=[e for e in m["edits"] if any(e[0] == k for k, _ in t)])))
+            m2 = dict(m, terms=t, edits=[e for e in m["edits"] if e[0] == "R" or any(e[0] == k for k, _ in t)])
+            if m.get("set_mapping"):
+                # keep the pinned mapping a bijection from the remaining labels onto 0..n-1 (anything else is a user error)
+                left = {json.dumps(l, sort_keys=True) for k, _ in t for l in k}
+                pairs = sorted([p for p in m["set_mapping"]["pairs"] if json.dumps(p[0], sort_keys=True) in left], key=lambda p: p[1])
+                if len(pairs) >= 1:
+                    m2["set_mapping"] = dict(m["set_mapping"], pairs=[[p[0], i] for i, p in enumerate(pairs)])
+                else:
+                    m2.pop("set_mapping")
+            out.append(dict(op, model=m2))
     if m["edits"]:
         out.append(dict(op, model=dict(m, edits=m["edits"][:-1])))
     if m.get("set_mapping"):
